@@ -436,6 +436,17 @@ func (e *Entry) add(key string, value *Entry) *Entry {
 
 // delete removes the directory entry key from the entry.
 func (e *Entry) delete(key string) {
+	// The input and output of an rpc or action are not kept in Dir.
+	if e.RPC != nil {
+		switch {
+		case key == "input" && e.RPC.Input != nil:
+			e.RPC.Input = nil
+			return
+		case key == "output" && e.RPC.Output != nil:
+			e.RPC.Output = nil
+			return
+		}
+	}
 	if _, ok := e.Dir[key]; !ok {
 		e.errorf("%s: unknown child key %s", Source(e.Node), key)
 	}
